@@ -56,6 +56,37 @@ type elementLeaf struct {
 	spent       bool
 }
 
+// elementLeafJSON is the JSON form of an elementLeaf. The element hash and the
+// spent flag are needed to recompute sibling hashes when an update refreshes a
+// proof (see updateProof), so they must survive a JSON round trip.
+type elementLeafJSON struct {
+	LeafIndex   uint64          `json:"leafIndex"`
+	MerkleProof []types.Hash256 `json:"merkleProof,omitempty"`
+	ElementHash types.Hash256   `json:"elementHash"`
+	Spent       bool            `json:"spent"`
+}
+
+// MarshalJSON implements json.Marshaler.
+func (l elementLeaf) MarshalJSON() ([]byte, error) {
+	var js elementLeafJSON
+	if l.StateElement != nil {
+		js.LeafIndex, js.MerkleProof = l.LeafIndex, l.MerkleProof
+	}
+	js.ElementHash, js.Spent = l.elementHash, l.spent
+	return json.Marshal(js)
+}
+
+// UnmarshalJSON implements json.Unmarshaler.
+func (l *elementLeaf) UnmarshalJSON(b []byte) error {
+	var js elementLeafJSON
+	if err := json.Unmarshal(b, &js); err != nil {
+		return err
+	}
+	l.StateElement = &types.StateElement{LeafIndex: js.LeafIndex, MerkleProof: js.MerkleProof}
+	l.elementHash, l.spent = js.ElementHash, js.Spent
+	return nil
+}
+
 // hash returns the leaf's hash, for direct use in the Merkle tree.
 func (l elementLeaf) hash() types.Hash256 {
 	buf := make([]byte, 1+32+8+1)
